@@ -1,6 +1,7 @@
 --------------------------- MODULE PhysicalTrace ---------------------------
 (***************************************************************************)
-(* Trace monitor for C16: fault-free executions of the real engine whose   *)
+(* Trace monitor for C16: executions of the real engine (fault-free, or    *)
+(* with failing calls and an error budget so that the run goes on) whose   *)
 (* call functions return fresh weak-referenceable results; at every call   *)
 (* boundary and at every 'completed' notification the harness logs, after  *)
 (* a garbage collection, which results are still alive. Alive results must *)
@@ -15,6 +16,9 @@ VARIABLES tid, l, bad, thr    \* thr[c] : the thread that executed c (0 = none)
 tvars == <<pcfg, physvars, tid, l, bad, thr>>
 Ev == Traces[tid].events
 Range(s) == {s[i] : i \in DOMAIN s}
+\* results consumed by the call whose failure the run reports: the reported exception carries the
+\* traceback of that call's function, whose frame holds its arguments - they live until run raises
+Keep == Range(Traces[tid].keep)
 
 ASSUME TLCSet(1, {})
 
@@ -49,7 +53,7 @@ TStep ==
             /\ LET st1 == IF e.settle THEN Settle(e.t, pst) ELSE pst
                    \* a result may live while its own call has not been wound up (it is still in that call's frame /
                    \* the worker still holds the BoundCall whose result slot it is), while a consumer is unfinished, or as output
-                   ok(n) == n \in Outs \/ st1[n] \in {"run", "ended"} \/ \E c \in Cons(n) : st1[c] \in {"idle", "run", "ended"}
+                   ok(n) == n \in Outs \/ n \in Keep \/ st1[n] \in {"run", "ended"} \/ \E c \in Cons(n) : st1[c] \in {"idle", "run", "ended"}
                IN /\ pst' = st1
                   /\ bad' = bad \cup {<<l, "released_after_last_consumer">> : n \in {m \in Range(e.ids) : m \in PCalls /\ ~ok(m)}}
             /\ UNCHANGED thr
